@@ -11,6 +11,8 @@
      new(s,c)            slot s := a fresh object of class c
      clone(s,t)          slot t := s->clone()                      (deep copy of the whole chain)
      copyctor(s,t)       slot t := new K(deref s)                        (same required result as clone)
+     cloneinner(a,t,c)   slot t := L->clone() / new K(deref L) with L the c-th layer of slot a's chain: a deep copy of the
+                         chain from L downwards; the copy is a root of its own (owned by the user, no parent)
      copyassign(a,b,c)   L = *b  where L is the c-th layer of slot a's chain (same class; c = 1 and a = b is self-
                          assignment): L gets b's fields and a deep copy of b's inner chain -- "including when the source
                          has fewer layers than the target had": b without child => L without child
@@ -65,6 +67,7 @@ PHas(st, p) == st.pslots[p] # NULL
 Enabled(st, op) ==
     CASE op.op = "new"         -> ~Has(st, op.a)
       [] op.op \in {"clone", "copyctor", "movector"} -> Has(st, op.a) /\ ~Has(st, op.b)
+      [] op.op = "cloneinner" -> Has(st, op.a) /\ ~Has(st, op.b) /\ op.c >= 2 /\ op.c <= Len(ChainOf(st, Root(st, op.a)))
       [] op.op = "copyassign" -> /\ Has(st, op.a) /\ Has(st, op.b) /\ op.c >= 1 /\ op.c <= Len(ChainOf(st, Root(st, op.a)))
                                  /\ st.cls[ChainOf(st, Root(st, op.a))[op.c]] = st.cls[Root(st, op.b)]     \* incl. self-assignment
       [] op.op = "moveassign" -> Has(st, op.a) /\ Has(st, op.b) /\ op.a # op.b /\ st.cls[Root(st, op.a)] = st.cls[Root(st, op.b)]
@@ -85,6 +88,7 @@ Apply(st, op) ==
         rb == IF op.b \in Slots THEN st.slots[op.b] ELSE NULL IN
     CASE op.op = "new" -> LET s2 == Alloc(st, op.b, op.c, NULL) IN [s2 EXCEPT !.slots[op.a] = s2.next - 1]
       [] op.op \in {"clone", "copyctor"} -> LET r == CopyChain(st, ra) IN [r[1] EXCEPT !.slots[op.b] = r[2]]
+      [] op.op = "cloneinner" -> LET r == CopyChain(st, ChainOf(st, ra)[op.c]) IN [r[1] EXCEPT !.slots[op.b] = r[2]]
       [] op.op = "copyassign" ->       \* fields := b's ; children := deep copy of b's children (none if b has none)
             LET node == ChainOf(st, ra)[op.c]                    \* the layer assigned to (1 = the root itself)
                 r == CopyChain(st, st.inner[rb])                 \* clone the source's children first ...
